@@ -25,6 +25,7 @@ pub fn replay(input: &str, output: &str) {
     }
     let mut evals = 0u64;
     let mut nontrivial = 0u64;
+    let mut divergences = 0u64;
     for (n, (_key, behaviours)) in groups.iter().enumerate() {
         let b0 = behaviours[0];
         let start = [b0["start"].as_i64().unwrap() as f64];
@@ -67,19 +68,27 @@ pub fn replay(input: &str, output: &str) {
         let got_q: Vec<Value> = queries.borrow().iter().map(|(q, f)| json!([*q as i64, f])).collect();
         let got_r: Value = match &result { Ok(p) => json!(p.iter().map(|v| v[0] as i64).collect::<Vec<_>>()), Err(e) => json!([e]) };
         if result.is_ok() { nontrivial += 1; }
-        let frac = queries.borrow().iter().any(|(q, _)| q.fract() != 0.0);
-        let matched = behaviours.iter().any(|b| b["queries"] == Value::Array(got_q.clone()) && b["result"] == got_r);
-        if !matched || frac || *overrun.borrow() {
-            let kind = if *overrun.borrow() { "draws-more-samples-than-the-model" }
-                else if !behaviours.iter().any(|b| b["queries"] == Value::Array(got_q.clone())) { "freeness-queries-differ" }
-                else if result.is_ok() != behaviours[0]["ok"].as_bool().unwrap() && behaviours.iter().all(|b| b["ok"] == behaviours[0]["ok"]) { "outcome-kind-differs" }
-                else { "assembled-path-differs" };
-            out.put(json!({"sig": format!("rrt1d:{}:stop-{}", kind, if stop_at < 0 { "never" } else if stop_at == 0 { "before" } else { "during" }),
-                "detail": format!("real queries {} result {}; model allows {}; {}", Value::Array(got_q.clone()), got_r, json!(behaviours.iter().map(|b| json!([b["queries"], b["result"]])).collect::<Vec<_>>()), desc), "data": desc}));
+        // (1) property level: whatever the algorithm did, a returned path must satisfy C13 in this world
+        let stop_class = if stop_at < 0 { "never" } else if stop_at == 0 { "before" } else { "during" };
+        if let Ok(path) = &result {
+            let cells: Vec<f64> = path.iter().map(|v| v[0]).collect();
+            let mut bad: Vec<&str> = Vec::new();
+            if cells.len() < 2 || cells[0] != start[0] || cells[cells.len() - 1] != goal[0] { bad.push("path-does-not-join-start-and-goal"); }
+            if cells.iter().any(|c| c.fract() == 0.0 && blocked.contains(&(*c as i64))) { bad.push("blocked-node-on-path"); }
+            if cells.windows(2).any(|w| (w[1] - w[0]).abs() > 3.0 * len + 1e-9) { bad.push("nodes-more-than-three-steps-apart"); }
+            if stop_at == 0 { bad.push("path-returned-although-cancelled"); }
+            for b in bad {
+                out.put(json!({"sig": format!("rrt1d:{}:stop-{}", b, stop_class),
+                    "detail": format!("real result {} (queries {}); {}", got_r, Value::Array(got_q.clone()), desc), "data": desc}));
+            }
         }
+        // (2) conformance: the run should be a behaviour of the Rrt model; a divergence alone is not a violation of
+        // the property (the code may legitimately order its work differently), it is counted and shown in the evidence
+        let matched = behaviours.iter().any(|b| b["queries"] == Value::Array(got_q.clone()) && b["result"] == got_r);
+        if !matched || *overrun.borrow() { divergences += 1; }
         if n == 11 { out.put(json!({"sample": {"scenario": desc, "queries": got_q, "result": got_r}})); }
     }
-    out.put(json!({"stats": {"lines": lines.len(), "groups": groups.len(), "evaluations": evals, "nontrivial": nontrivial}}));
+    out.put(json!({"stats": {"lines": lines.len(), "groups": groups.len(), "evaluations": evals, "nontrivial": nontrivial, "divergences": divergences}}));
     out.finish();
 }
 
